@@ -1,4 +1,5 @@
 // C03 — AsyncLoop protocol. Oracle half (uninstrumented): plan, history predicates.
+#include <semaphore.h>
 #include <stdio.h>
 #include <string.h>
 
@@ -18,6 +19,8 @@ struct State
   bool running_wanted;  // start() returned more recently than any stop() invoke
   unsigned long bodies;
   int in_stop, in_start;
+  int ctrl_pos;
+  bool ctrl_done;
 } st;
 
 enum { P_STOP_SAW_INSIDE = 0, P_BODY_AFTER_START, P_EXPECT_RAN, P_STOP_WHILE_RUNNING, P_REDUNDANT_START, P_REDUNDANT_STOP, P_DTOR_WHILE_RUNNING };
@@ -57,6 +60,7 @@ void do_plan(int tier)
   plan.body_cost = (int)sim_plan(4);
   plan.spurious = (int)sim_plan(2);
   sim_set_spurious(plan.spurious);
+  plan.ctrl_in_loop = sim_plan(8) == 0;
   plan.nops = 1 + (int)sim_plan(8);
   for (int i = 0; i < plan.nops; i++) {
     unsigned k = sim_plan(6);
@@ -101,8 +105,8 @@ void describe(char *buf, size_t n)
 {
   static const char *opn[] = {"start", "stop", "idle", "expect-progress"};
   static const char *ln[] = {"AUTO", "THREAD", "TASK"};
-  int k = snprintf(buf, n, "{\"launch\": \"%s\", \"init_threads\": %d, \"body_cost\": %d, \"spurious_wakeups\": %d, \"script\": [",
-                   ln[plan.launch], plan.init_threads, plan.body_cost, plan.spurious);
+  int k = snprintf(buf, n, "{\"launch\": \"%s\", \"init_threads\": %d, \"body_cost\": %d, \"spurious_wakeups\": %d, \"controller_is_another_loops_body\": %d, \"script\": [",
+                   ln[plan.launch], plan.init_threads, plan.body_cost, plan.spurious, plan.ctrl_in_loop);
   for (int i = 0; i < plan.nops && k < (int)n - 40; i++) {
     if (plan.ops[i].kind == C03_OP_IDLE)
       k += snprintf(buf + k, n - k, "%s\"idle(%d)\"", i ? "," : "", plan.ops[i].arg);
@@ -158,6 +162,24 @@ void c03_ev(int code)
   }
 }
 
+static sem_t ctrl_sem;  // modelled by the simulator (the interposed sem_* functions)
+int c03_ctrl_next()
+{
+  if (st.ctrl_pos >= plan.nops) {
+    if (!st.ctrl_done) {
+      st.ctrl_done = true;
+      sem_post(&ctrl_sem);
+    }
+    return -1;
+  }
+  return st.ctrl_pos++;
+}
+void c03_ctrl_wait_done()
+{
+  // (the simulator models a semaphore it has not seen yet with the value 0; an explicit sem_init here
+  // could wipe out a post the controlling loop has already made)
+  sem_wait(&ctrl_sem);  // thread 0 sleeps until the controlling loop has issued the whole script
+}
 void c03_body_enter()
 {
   sim_event(C03_BODY_ENTER, 0, 0);
